@@ -83,6 +83,7 @@ def template_scenario(prog, template, seq):
 
 def run(prog, chk):
     utf8_table(prog, chk)
+    integer_table(prog, chk)
     _run(prog, chk)
 
 
@@ -324,3 +325,52 @@ def utf8_table(prog, chk):
     chk.ob("C10.utf8", "verifyUtf8[empty]", True, "%d byte strings evaluated in total" % n, loc=fn.loc(), fn=fn, nontrivial=False)
     if n < 300:
         raise AnalysisBroken("verifyUtf8: only %d byte strings evaluated" % n)
+
+
+def integer_table(prog, chk):
+    """KSI_Integer_fromTlv over byte strings: accepted iff at most 8 bytes and minimally encoded (no leading zero byte; zero is the empty
+    string), with the big-endian value."""
+    from ksirules.interp import TOP, Interp, Ptr, succeed_model
+    chk.rule("C10.integer", "integer parser: value and minimal-encoding decision table over byte strings of length 0..9", floor=25)
+    fn = prog.fn("KSI_Integer_fromTlv", "types_base.c")
+    tp, op = fn.params[0]["n"], fn.params[1]["n"]
+    FMT = prog.const("KSI_INVALID_FORMAT")
+    cases = [[], [0], [1], [0xff], [0, 1], [1, 0], [0xff, 0xff], [0, 0xff, 0xff], [1, 0, 0], [0xff] * 3, [0, 1, 2, 3], [1, 2, 3, 4], [0xff] * 4,
+             [0, 0xff, 0xff, 0xff, 0xff], [1, 0, 0, 0, 0], [0x80] + [0] * 4, [1] * 5, [0] + [1] * 5, [1] * 6, [1] * 7, [0] + [9] * 7, [0xff] * 8,
+             [1] + [0] * 7, [0] * 8, [0, 0], [1] * 9, [0] * 9, [0] + [0xff] * 8]
+    for bs in cases:
+        inputs = {tp: Ptr("T"), op: Ptr("OUT")}
+        for k, b in enumerate(bs):
+            inputs["RAW[%d]" % k] = b
+
+        def getraw(I, p, node, args, bs=bs):
+            I.write(p, lvalue_key(strip(node["a"][1])["e"], I.fn), Ptr("RAW"))
+            I.write(p, lvalue_key(strip(node["a"][2])["e"], I.fn), len(bs))
+            return 0
+        made = []
+
+        def intnew(I, p, node, args):
+            made.append(args[1])
+            I.write(p, lvalue_key(strip(node["a"][2])["e"], I.fn), Ptr("INT"))
+            return 0
+        ov = {"KSI_TLV_getRawValue": getraw, "KSI_Integer_new": intnew, "KSI_TLV_getCtx": lambda I, p, n, a: Ptr("ctx")}
+        I = Interp(fn, inputs=inputs, call_model=succeed_model(prog, ov), on_unknown="stop", prog=prog, loop_bound=12)
+        paths = I.run()
+        chk.paths += len(paths)
+        inst = "Integer_fromTlv[%s]" % (" ".join("%02x" % b for b in bs) or "empty")
+        if len(paths) != 1 or paths[0].undetermined:
+            raise AnalysisBroken("KSI_Integer_fromTlv: evaluation not determined for %s: %s" % (inst, [q.undetermined[:1] for q in paths]))
+        q = paths[0]
+        val = 0
+        for b in bs:
+            val = (val << 8) | b
+        minimal = len(bs) <= 8 and (not bs or bs[0] != 0)
+        out = [t[2] for t in q.stores("*" + op)]
+        if minimal:
+            ok = q.ret == 0 and made == [val] and out == [Ptr("INT")]
+            want = "accepted with value %#x" % val
+        else:
+            ok = q.ret == FMT and not out
+            want = "KSI_INVALID_FORMAT (%s)" % ("longer than 8 bytes" if len(bs) > 8 else "leading zero byte")
+        chk.ob("C10.integer", inst, ok, "expected %s; source: status %s, value %s, stored %s" % (want, hex(q.ret) if isinstance(q.ret, int) else q.ret,
+                                                                                           [hex(m) if isinstance(m, int) else m for m in made], out), loc=fn.loc(), fn=fn)
